@@ -136,6 +136,17 @@ pub fn check_big_groups(na: u32, nb: u32, stats: &mut Stats) -> CheckResult {
         let gb: HpoGroup = shuffled(&b_ids).into_iter().map(HpoTermId::from_u32).collect();
         well_formed_big(&ga, &sa, "constructor")?;
         well_formed_big(&gb, &sb, "constructor")?;
+        // the same ids through every other constructor that needs no ontology
+        let as_ids: Vec<HpoTermId> = shuffled(&a_ids).into_iter().map(HpoTermId::from_u32).collect();
+        well_formed_big(&HpoGroup::from(as_ids.clone()), &sa, "constructor:From<Vec<HpoTermId>>")?;
+        well_formed_big(&HpoGroup::from(as_ids.iter().copied().collect::<std::collections::HashSet<HpoTermId>>()), &sa, "constructor:From<HashSet>")?;
+        if na <= 70_000 {
+            let mut by_insert = HpoGroup::with_capacity(7);
+            for id in as_ids.iter().rev() {
+                by_insert.insert(*id);
+            }
+            well_formed_big(&by_insert, &sa, "constructor:insert")?;
+        }
         let un: BTreeSet<u32> = sa.union(&sb).copied().collect();
         let inter: BTreeSet<u32> = sa.intersection(&sb).copied().collect();
         well_formed_big(&(&ga | &gb), &un, "bitor(&,&)")?;
@@ -635,7 +646,7 @@ impl Property for C12 {
         replay_typed::<Case, _>(case, stats, check)
     }
     fn extra(&self, tier: Tier, _seed: u64, stats: &mut Stats) -> Vec<(Value, Failure)> {
-        let mut sizes = vec![(255u32, 256u32), (256, 257), (300, 31), (511, 512), (513, 600), (1023, 1025), (4095, 4097), (65_535, 65_536), (65_537, 300), (70_000, 66_000)];
+        let mut sizes = vec![(255u32, 256u32), (256, 257), (300, 31), (511, 512), (513, 600), (1023, 1025), (2047, 2049), (2048, 5000), (4095, 4097), (65_535, 65_536), (65_537, 300), (70_000, 66_000)];
         if tier == Tier::Thorough {
             sizes.extend([(1_000_000, 70_000), (4096, 4097), (131_072, 131_071)]);
         }
